@@ -279,6 +279,16 @@ func runWorker(ch *Check, c *Ctx, out string) {
 		}
 	}
 	c.Tick()
+	// a panic in this worker must not take what it has already observed with it: the report so far is written out
+	// (next to the normal one, the driver merges it) before the process dies with the original panic
+	defer func() {
+		if r := recover(); r != nil {
+			if out != "" {
+				_ = c.R.WriteFile(out + ".partial")
+			}
+			panic(r)
+		}
+	}()
 	if ch.Once != nil && c.Shard == 0 && c.Only < 0 {
 		c.cur.Store(-1)
 		ch.Once(c)
@@ -405,7 +415,10 @@ func runDriver(ch *Check, c *Ctx) int {
 	var gates []string
 	for _, cr := range crashes {
 		what := fmt.Sprintf("worker %d exit=%d at case %d (reproduced in isolation: %v): %s", cr.Shard, cr.Exit, cr.Case, cr.Repro, firstLines(cr.Tail, 6))
-		if cr.Repro && ch.CrashIsViolation {
+		// a reproduced crash whose panic / fatal error comes out of zlint's own code (innermost non-runtime frame of
+		// the dump) is the library failing under the monitored operation: a violation for whichever property's
+		// operation it was; one out of the harness is a broken check (gate failure, no verdict)
+		if cr.Repro && (ch.CrashIsViolation || crashInZlint(cr.Tail)) {
 			kind := "crash"
 			if cr.Exit == 97 {
 				kind = "stall"
@@ -559,6 +572,9 @@ func fanOut(ch *Check, c *Ctx, work string, procs int, merged *Report) []crash {
 				continue
 			}
 		}
+		if rep, err := ReadReport(out + ".partial"); err == nil { // what the worker had observed before it died
+			merged.Merge(rep)
+		}
 		cr := crash{Shard: r.shard, Exit: -1, Case: -1}
 		if ee, ok := r.err.(*exec.ExitError); ok {
 			cr.Exit = ee.ExitCode()
@@ -623,4 +639,31 @@ func crashSig(tail string) string {
 		}
 	}
 	return "unknown"
+}
+
+// crashInZlint: is the innermost non-runtime frame of the first goroutine dump in the log a zlint frame?
+func crashInZlint(log string) bool {
+	seenGoroutine := false
+	for _, l := range strings.Split(log, "\n") {
+		t := strings.TrimSpace(l)
+		if strings.HasPrefix(t, "goroutine ") {
+			if seenGoroutine {
+				return false
+			}
+			seenGoroutine = true
+			continue
+		}
+		if !seenGoroutine || strings.HasPrefix(t, "/") || t == "" {
+			continue
+		}
+		switch {
+		case strings.HasPrefix(t, "runtime."), strings.HasPrefix(t, "runtime/"), strings.HasPrefix(t, "panic("), strings.HasPrefix(t, "testing."), strings.HasPrefix(t, "reflect."), strings.HasPrefix(t, "sync."), strings.HasPrefix(t, "created by"):
+			continue
+		case strings.HasPrefix(t, "github.com/zmap/zlint/"):
+			return true
+		case strings.Contains(t, "(") || strings.Contains(t, "."):
+			return false
+		}
+	}
+	return false
 }
